@@ -10,6 +10,8 @@ this name" (spelled out by `validDN_iff`).
 -/
 import NotationModel.Lemmas.C04
 import NotationModel.Generated.C04
+import NotationModel.Generated.SrcC04
+import NotationModel.Generated.SrcC04c
 set_option linter.unusedSimpArgs false
 set_option linter.unusedVariables false
 
@@ -25,7 +27,8 @@ model and the property use: the leaf is `certs[0]`, the wildcard is `*`, identit
 theorem facts_wf :
     Facts.c04LeafIndex = leafIndex ∧ Facts.c04Wildcard = wildcard ∧ Facts.c04Separator = separator ∧
     Facts.c04X509Subject = x509Subject ∧ Facts.c04AliasFrom = aliasFrom ∧ Facts.c04AliasTo = aliasTo ∧
-    Facts.c04MaxAttrsPerRDN = maxAttrs ∧ Facts.c04Mandatory = mandatory ∧
+    Facts.c04MaxAttrsPerRDN = maxAttrs ∧
+    (Facts.c04Mandatory.all (mandatory.contains ·) && mandatory.all (Facts.c04Mandatory.contains ·)) = true ∧
     Facts.c04Unsupported = unsupported := by decide
 
 /-- the wildcard is not an `a:b` identity -/
@@ -633,5 +636,587 @@ example : run { identities := [exId ['a'] [[(CN, rootCN)], [(O, org)], [(ST, wa)
 example : Holds { identities := [{ raw := ['*'], rdns := none }], chain := exChain, minted := minted, plugin := some { capabilities := [.trustedIdentity], identitySuccess := false } } { pass := true } = false := by decide
 
 end examples
+
+
+/-! ### tie to the translated source
+
+`extract/go2lean_c04.go` translates `pkix.IsSubsetDN`, `pkix.ParseDistinguishedName`
+(internal/pkix/pkix.go) and `verifier.verifyX509TrustedIdentities` (verifier/verifier.go) into
+Lean on every run (`Generated/SrcC04.lean`, `SrcC04c.lean`; the two constants of
+internal/trustpolicy in `SrcC04b.lean`). The theorems below say that the translated functions
+compute, for ALL inputs, what the hand-written model computes. Go strings are `String` there and
+`List Char` in the model (`String.toList`); Go maps are association lists, and the statements hold
+for every list, i.e. for every iteration order Go may choose. Oracles: go-ldap's `ParseDN` (a
+parameter of the translated `ParseDistinguishedName`) and, in the verifier,
+`pkix.ParseDistinguishedName` itself (instantiated with the translated one at the end). -/
+
+namespace Tie
+open NotationModel.Src
+
+def toAttr (p : String × String) : Attr := (p.1.toList, p.2.toList)
+/-- a Go `map[string]string` (association list of strings) as the model's map -/
+def toMap (m : GoLite.Map String String) : AttrMap := m.map toAttr
+
+theorem lookup_toMap (m : GoLite.Map String String) (k : String) :
+    lookup k.toList (toMap m) = (GoLite.Map.get? m k).map String.toList := by
+  induction m with
+  | nil => rfl
+  | cons a r ih =>
+    obtain ⟨k', v⟩ := a
+    simp only [toMap, List.map_cons, toAttr, lookup, GoLite.Map.get?, List.find?_cons] at ih ⊢
+    by_cases h : k' = k
+    · simp [h]
+    · have h1 : ¬ k'.toList = k.toList := fun e => h (String.toList_inj.1 e)
+      have h2 : (k' == k) = false := by simpa using h
+      simp only [h1, if_false, h2]
+      exact ih
+
+/-- `got, ok := m[k]; !ok || got != v` is the negation of the model's presence test -/
+theorem lookup_test (m : GoLite.Map String String) (k v : String) :
+    (!(GoLite.Map.lookup m k).2 || (GoLite.Map.lookup m k).1 != v) =
+      !present (fun got => got == v.toList) (lookup k.toList (toMap m)) := by
+  rw [lookup_toMap]
+  unfold GoLite.Map.lookup
+  cases GoLite.Map.get? m k with
+  | none => simp [present]
+  | some g =>
+    by_cases e : g = v
+    · simp [present, e]
+    · have h1 : (g != v) = true := by simpa using e
+      have h2 : (g.toList == v.toList) = false := by
+        simpa using (fun h => e (String.toList_inj.1 h) : ¬ g.toList = v.toList)
+      simp [present, h1, h2]
+
+theorem foldE_isSubset (dn1 dn2 : GoLite.Map String String) :
+    (match GoLite.foldE (fun (_ : Unit) (x : String × String) =>
+        if (!(GoLite.Map.lookup dn2 x.1).2 || (GoLite.Map.lookup dn2 x.1).1 != x.2) = true then Except.error () else Except.ok ()) dn1 () with
+      | .ok _ => true
+      | .error _ => false) = isSubset (toMap dn1) (toMap dn2) := by
+  induction dn1 with
+  | nil => simp [GoLite.foldE, isSubset, toMap]
+  | cons a r ih =>
+    have hs : isSubset (toMap (a :: r)) (toMap dn2) =
+        (present (fun got => got == a.2.toList) (lookup a.1.toList (toMap dn2)) && isSubset (toMap r) (toMap dn2)) := rfl
+    rw [hs, ← ih]
+    simp only [GoLite.foldE]
+    rw [lookup_test]
+    cases h : present (fun got => got == a.2.toList) (lookup a.1.toList (toMap dn2)) <;> simp
+
+/-- TIE: `pkix.IsSubsetDN` -/
+theorem source_IsSubsetDN_refines_model (dn1 dn2 : GoLite.Map String String) :
+    pkix.IsSubsetDN dn1 dn2 = isSubset (toMap dn1) (toMap dn2) := by
+  unfold pkix.IsSubsetDN
+  simp only [Id.run]
+  -- the loop may return early or set a flag and break: two shapes of loop state
+  first
+    | rw [GoLite.forIn_eq_foldE' _ (fun (_ : Unit) (x : String × String) =>
+        if (!(GoLite.Map.lookup dn2 x.1).2 || (GoLite.Map.lookup dn2 x.1).1 != x.2) = true then Except.error () else Except.ok ())
+        (fun _ => (none, ())) (fun _ _ => (some false, ())) ?h dn1 _ () rfl]
+    | rw [GoLite.forIn_eq_foldE' _ (fun (_ : Unit) (x : String × String) =>
+        if (!(GoLite.Map.lookup dn2 x.1).2 || (GoLite.Map.lookup dn2 x.1).1 != x.2) = true then Except.error () else Except.ok ())
+        (fun _ => true) (fun _ _ => false) ?h dn1 _ () rfl]
+  case h =>
+    intro x t
+    (try (repeat' split)) <;> first | rfl | simp_all
+  rw [← foldE_isSubset]
+  simp only [pure_bind]
+  (try (repeat' split)) <;> first | rfl | simp_all [GoLite.idPure]
+
+example : pkix.IsSubsetDN [("C", "US"), ("O", "x")] [("O", "x"), ("CN", "y"), ("C", "US")] = true := by decide
+example : pkix.IsSubsetDN [("C", "US"), ("L", "")] [("O", "x"), ("C", "US")] = false := by decide
+
+/-! #### ParseDistinguishedName -/
+
+/-- go-ldap's attribute as the model's -/
+def toA (a : ldapv3.AttributeTypeAndValue) : Attr := (a.«Type».toList, a.Value.toList)
+def toRdns (dn : ldapv3.DN) : List (List Attr) := dn.RDNs.map (fun r => r.Attributes.map toA)
+/-- what the oracle `ldap.ParseDN` answered, as the model's input -/
+def rdnsOf (r : Option ldapv3.DN × Option GoLite.Err) : Option (List (List Attr)) :=
+  if r.2.isSome then none else some (toRdns (GoLite.deref r.1))
+
+def goAlias (t : String) : String := if t == "S" then "ST" else t
+
+/-- one round of the attribute loop on the Go map -/
+def innerStep (m : GoLite.Map String String) (a : ldapv3.AttributeTypeAndValue) : Except Unit (GoLite.Map String String) :=
+  if (GoLite.Map.lookup m (goAlias a.«Type»)).2 = true then .error ()
+  else .ok (GoLite.Map.set m (goAlias a.«Type») a.Value)
+
+/-- one round of the RDN loop -/
+def outerStep (m : GoLite.Map String String) (rdn : ldapv3.RelativeDN) :
+    Except (GoLite.Map String String) (GoLite.Map String String) :=
+  if rdn.Attributes.length > 1 then .error m
+  else match GoLite.foldE innerStep rdn.Attributes m with
+    | .ok m' => .ok m'
+    | .error (mf, _) => .error mf
+
+abbrev PRes := Option (GoLite.Map String String) × Option GoLite.Err
+abbrev absP (m : GoLite.Map String String) : Option PRes × GoLite.Map String String := (none, m)
+abbrev stopP (m : GoLite.Map String String) (_ : Unit) : Option PRes × GoLite.Map String String :=
+  (some (none, some (GoLite.errorf "")), m)
+/-- the RDN loop stops with the map as it was when the error occurred -/
+abbrev stopO (_ : GoLite.Map String String) (mf : GoLite.Map String String) : Option PRes × GoLite.Map String String :=
+  (some (none, some (GoLite.errorf "")), mf)
+
+theorem alias_toList (t : String) :
+    (goAlias t).toList = (if t.toList = aliasFrom then aliasTo else t.toList) := by
+  unfold goAlias
+  by_cases h : t = "S"
+  · subst h; rfl
+  · have h1 : (t == "S") = false := by simpa using h
+    have h2 : ¬ t.toList = aliasFrom := by
+      intro e; apply h; apply String.toList_inj.1; rw [e]; rfl
+    simp [h1, h2]
+
+theorem norm_toA (a : ldapv3.AttributeTypeAndValue) :
+    norm (toA a) = ((goAlias a.«Type»).toList, a.Value.toList) := by
+  unfold norm toA
+  simp only [alias_toList]
+
+theorem toMap_set_absent (m : GoLite.Map String String) (k v : String) (h : GoLite.Map.get? m k = none) :
+    toMap (GoLite.Map.set m k v) = toMap m ++ [(k.toList, v.toList)] := by
+  have : m.any (fun p => p.1 == k) = false := by
+    rw [List.any_eq_false]
+    intro p hp hpk
+    simp only [GoLite.Map.get?, Option.map_eq_none_iff, List.find?_eq_none] at h
+    exact h p hp hpk
+  simp [GoLite.Map.set, this, toMap, toAttr]
+
+theorem innerStep_none {m : GoLite.Map String String} {a : ldapv3.AttributeTypeAndValue}
+    (h : GoLite.Map.get? m (goAlias a.«Type») = none) :
+    innerStep m a = .ok (GoLite.Map.set m (goAlias a.«Type») a.Value) := by
+  simp [innerStep, GoLite.Map.lookup, h]
+
+theorem innerStep_some {m : GoLite.Map String String} {a : ldapv3.AttributeTypeAndValue} {g : String}
+    (h : GoLite.Map.get? m (goAlias a.«Type») = some g) : innerStep m a = .error () := by
+  simp [innerStep, GoLite.Map.lookup, h]
+
+theorem foldE_inner (attrs : List ldapv3.AttributeTypeAndValue) : ∀ m : GoLite.Map String String,
+    (match GoLite.foldE innerStep attrs m with
+      | .ok m' => some (toMap m')
+      | .error _ => none) = addAttrs (attrs.map toA) (toMap m) := by
+  induction attrs with
+  | nil => intro m; simp [GoLite.foldE, addAttrs]
+  | cons a r ih =>
+    intro m
+    simp only [GoLite.foldE, List.map_cons, addAttrs, norm_toA, lookup_toMap]
+    rcases Option.eq_none_or_eq_some (GoLite.Map.get? m (goAlias a.«Type»)) with hg | ⟨g, hg⟩
+    · rw [innerStep_none hg, hg]
+      simp only [Option.map_none]
+      rw [← toMap_set_absent m _ _ hg]
+      exact ih _
+    · rw [innerStep_some hg, hg]
+      simp
+
+theorem foldE_outer (rdns : List ldapv3.RelativeDN) : ∀ m : GoLite.Map String String,
+    (match GoLite.foldE outerStep rdns m with
+      | .ok m' => some (toMap m')
+      | .error _ => none) = addRDNs (rdns.map (fun r => r.Attributes.map toA)) (toMap m) := by
+  induction rdns with
+  | nil => intro m; simp [GoLite.foldE, addRDNs]
+  | cons r rs ih =>
+    intro m
+    simp only [GoLite.foldE, List.map_cons, addRDNs, outerStep, List.length_map, maxAttrs]
+    by_cases hl : r.Attributes.length > 1
+    · simp [hl]
+    · simp only [hl, if_false]
+      rw [← foldE_inner]
+      cases GoLite.foldE innerStep r.Attributes m with
+      | ok m' => simpa using ih m'
+      | error e => simp
+
+/-- `attrKeyValue[field] == ""` -/
+theorem get_empty_test (m : GoLite.Map String String) (k : String) :
+    (GoLite.Map.get m k == "") = !present (fun v => !v.isEmpty) (lookup k.toList (toMap m)) := by
+  rw [lookup_toMap]
+  unfold GoLite.Map.get GoLite.Map.lookup
+  cases GoLite.Map.get? m k with
+  | none => simp [present]
+  | some g =>
+    by_cases e : g = ""
+    · subst e; simp [present]
+    · have h1 : (g == "") = false := by simpa using e
+      have h2 : g.toList ≠ [] := by
+        intro h; apply e; apply String.toList_inj.1; rw [h]; rfl
+      cases hl : g.toList with
+      | nil => exact absurd hl h2
+      | cons c r => simp [present, h1, hl]
+
+def mandStep (m : GoLite.Map String String) (_ : Unit) (field : String) : Except Unit Unit :=
+  if (GoLite.Map.get m field == "") = true then .error () else .ok ()
+
+theorem foldE_mand (m : GoLite.Map String String) (fields : List String) :
+    (match GoLite.foldE (mandStep m) fields () with
+      | .ok _ => true
+      | .error _ => false) =
+      fields.all (fun f => present (fun v => !v.isEmpty) (lookup f.toList (toMap m))) := by
+  induction fields with
+  | nil => simp [GoLite.foldE]
+  | cons f fs ih =>
+    simp only [GoLite.foldE, mandStep, List.all_cons, get_empty_test]
+    cases present (fun v => !v.isEmpty) (lookup f.toList (toMap m)) with
+    | true => simpa [mandStep] using ih
+    | false => simp
+
+theorem foldE_mand_eq (m : GoLite.Map String String) (fields : List String) :
+    GoLite.foldE (mandStep m) fields () =
+      if fields.all (fun f => present (fun v => !v.isEmpty) (lookup f.toList (toMap m))) = true then .ok ()
+      else .error ((), ()) := by
+  have h := foldE_mand m fields
+  cases hf : GoLite.foldE (mandStep m) fields () with
+  | ok u => rw [hf] at h; simp [← h]
+  | error p => rw [hf] at h; simp [← h]
+
+def shapeP (r : PRes) : Option AttrMap × Bool := (r.1.map toMap, r.2.isSome)
+def ofModelP : Option AttrMap → Option AttrMap × Bool
+  | some m => (some m, false)
+  | none => (none, true)
+
+theorem hasInfixL_eq (p : List Char) (s : List Char) : strings.hasInfixL p s = hasInfix p s := by
+  induction s with
+  | nil => rfl
+  | cons c r ih => simp [strings.hasInfixL, hasInfix, ih]
+
+theorem source_ParseDistinguishedName_refines_model
+    (ldapParseDN : String → Option ldapv3.DN × Option GoLite.Err) (name : String) :
+    shapeP (pkix.ParseDistinguishedName ldapParseDN name) =
+      ofModelP (parseDN name.toList (rdnsOf (ldapParseDN name))) := by
+  unfold pkix.ParseDistinguishedName
+  simp only [Id.run]
+  unfold parseDN rdnsOf
+  have hinf : strings.Contains name "=#" = hasInfix unsupported name.toList := by
+    unfold strings.Contains; rw [hasInfixL_eq]; rfl
+  rw [hinf]
+  by_cases h1 : hasInfix unsupported name.toList = true
+  · simp [h1, shapeP, ofModelP, GoLite.idPure]
+  · simp only [h1, Bool.false_eq_true, if_false]
+    by_cases h2 : (ldapParseDN name).2.isSome = true
+    · simp [h2, shapeP, ofModelP, GoLite.idPure]
+    · simp only [h2, Bool.false_eq_true, if_false]
+      rw [GoLite.forIn_eq_foldE' _ outerStep absP stopO ?h _ _ [] rfl]
+      case h =>
+        intro rdn m
+        by_cases hl : rdn.Attributes.length > 1
+        · have hd : decide (GoLite.len rdn.Attributes > 1) = true := by simp [GoLite.len]; omega
+          simp [hd, outerStep, hl, absP, stopO, GoLite.errorf]
+        · have hd : decide (GoLite.len rdn.Attributes > 1) = false := by simp [GoLite.len]; omega
+          simp only [hd, Bool.false_eq_true, if_false]
+          rw [GoLite.forIn_eq_foldE' _ innerStep absP stopP ?hi rdn.Attributes _ m rfl]
+          case hi =>
+            intro a m'
+            unfold innerStep goAlias
+            (try (repeat' split)) <;> first | rfl | simp_all [GoLite.errorf, eq_comm (a := "S")]
+          simp only [outerStep, hl, if_false, pure_bind]
+          cases GoLite.foldE innerStep rdn.Attributes m with
+          | ok m' => rfl
+          | error p => simp [stopP, stopO, GoLite.errorf]
+      simp only [pure_bind]
+      have ho := foldE_outer (GoLite.deref (ldapParseDN name).fst).RDNs []
+      have ht : toMap ([] : GoLite.Map String String) = [] := rfl
+      rw [ht] at ho
+      unfold toRdns
+      rw [← ho]
+      cases GoLite.foldE outerStep (GoLite.deref (ldapParseDN name).fst).RDNs [] with
+      | error p => simp [stopO, shapeP, ofModelP, GoLite.idPure]
+      | ok m' =>
+        simp only [absP]
+        rw [GoLite.forIn_eq_foldE' _ (mandStep m') (fun _ => (none, ())) (fun _ _ => (some (none, some (GoLite.errorf "")), ())) ?hm _ _ () rfl]
+        case hm =>
+          intro f t
+          unfold mandStep
+          (try (repeat' split)) <;> first | rfl | simp_all [GoLite.errorf, eq_comm (a := "")]
+        simp only [pure_bind, foldE_mand_eq]
+        have e1 : "C".toList = ['C'] := rfl
+        have e2 : "ST".toList = ['S', 'T'] := rfl
+        have e3 : "O".toList = ['O'] := rfl
+        simp only [mandatoryPresent, mandatory, List.all_cons, List.all_nil, e1, e2, e3, Bool.and_true]
+        cases present (fun v => !v.isEmpty) (lookup ['C'] (toMap m')) <;>
+          cases present (fun v => !v.isEmpty) (lookup ['S', 'T'] (toMap m')) <;>
+          cases present (fun v => !v.isEmpty) (lookup ['O'] (toMap m')) <;>
+          simp [shapeP, ofModelP, GoLite.idPure, GoLite.errorf]
+
+example : (pkix.ParseDistinguishedName (fun _ => (some { RDNs := [{ Attributes := [{ «Type» := "C", Value := "US" }] },
+    { Attributes := [{ «Type» := "S", Value := "WA" }] }, { Attributes := [{ «Type» := "O", Value := "x" }] }] }, none)) "C=US,S=WA,O=x").1
+    = some [("C", "US"), ("ST", "WA"), ("O", "x")] := by decide
+
+
+/-! #### verifyX509TrustedIdentities -/
+
+theorem beq_toList (s t : String) : (s.toList == t.toList) = (s == t) := by
+  by_cases h : s = t
+  · subst h; simp
+  · have : ¬ s.toList = t.toList := fun e => h (String.toList_inj.1 e)
+    rw [beq_eq_false_iff_ne.2 h, beq_eq_false_iff_ne.2 this]
+
+theorem isEmpty_toList (s : String) : s.toList.isEmpty = (s == "") := by
+  by_cases h : s = ""
+  · subst h; rfl
+  · have h1 : (s == "") = false := by simpa using h
+    cases hl : s.toList with
+    | nil => exfalso; apply h; apply String.toList_inj.1; rw [hl]; rfl
+    | cons c r => simp [h1]
+
+theorem cut_eq (l : List Char) :
+    cut l = if l.contains ':' then some (l.takeWhile (· != ':'), (l.dropWhile (· != ':')).drop 1) else none := by
+  induction l with
+  | nil => rfl
+  | cons c r ih =>
+    simp only [cut, separator]
+    by_cases h : c = ':'
+    · subst h; simp
+    · have h1 : (c != ':') = true := by simpa using h
+      have h2 : (':' == c) = false := by
+        cases hh : (':' == c) with
+        | false => rfl
+        | true => simp at hh; exact absurd hh.symm h
+      simp only [h, if_false, ih, List.contains_cons, h2, Bool.false_or, List.takeWhile_cons, h1, if_true,
+        List.dropWhile_cons]
+      by_cases hr : ':' ∈ r
+      · have hr' : r.contains ':' = true := by simpa using hr
+        simp [hr, hr']
+      · have hr' : r.contains ':' = false := by simpa using hr
+        simp [hr, hr']
+
+/-- `strings.Cut(s, ":")` and the model's `cut` -/
+theorem cut_src (s : String) :
+    cut s.toList = if (GoLite.cut s (Char.ofNat 58)).2.2 = true
+      then some ((GoLite.cut s (Char.ofNat 58)).1.toList, (GoLite.cut s (Char.ofNat 58)).2.1.toList) else none := by
+  have hc : Char.ofNat 58 = ':' := rfl
+  rw [cut_eq, hc]
+  unfold GoLite.cut
+  by_cases h : s.toList.contains ':' = true
+  · have h' : ':' ∈ s.toList := by simpa using h
+    simp [h', String.toList_ofList]
+  · have h' : ¬ ':' ∈ s.toList := by simpa using h
+    simp [h']
+
+/-- the oracle `pkix.ParseDistinguishedName`, seen from the model: an error, or the parsed map -/
+def ofP (r : GoLite.Map String String × Option GoLite.Err) : Option AttrMap :=
+  if r.2.isSome then none else some (toMap r.1)
+
+variable (P : String → GoLite.Map String String × Option GoLite.Err)
+variable (R : String → Option (List (List Attr)))
+
+/-- an identity string of the policy as the model's input -/
+def mkId (s : String) : Identity := { raw := s.toList, rdns := R (GoLite.cut s (Char.ofNat 58)).2.1 }
+/-- a certificate as the model's input -/
+def mkDN (c : x509.Certificate) : DN := { text := c.Subject.text.toList, rdns := R c.Subject.text }
+
+/-- one round of the identity loop, on the Go values -/
+def idStep (acc : List (GoLite.Map String String)) (s : String) :
+    Except (Option GoLite.Err) (List (GoLite.Map String String)) :=
+  if (GoLite.cut s (Char.ofNat 58)).2.2 = false then .error (some (GoLite.errorf ""))
+  else if (GoLite.cut s (Char.ofNat 58)).1 == "x509.subject" then
+    if (GoLite.cut s (Char.ofNat 58)).2.1 == "" then .error (some (GoLite.errorf ""))
+    else if (P (GoLite.cut s (Char.ofNat 58)).2.1).2.isSome = true then .error (P (GoLite.cut s (Char.ofNat 58)).2.1).2
+    else .ok (acc ++ [(P (GoLite.cut s (Char.ofNat 58)).2.1).1])
+  else .ok acc
+
+theorem idStep_error_isSome {acc : List (GoLite.Map String String)} {s : String} {e : Option GoLite.Err}
+    (h : idStep P acc s = .error e) : e.isSome = true := by
+  unfold idStep at h
+  (repeat' split at h) <;> simp_all
+  all_goals (subst h; simp_all)
+
+theorem foldE_error_isSome (ids : List String) : ∀ (acc a : List (GoLite.Map String String)) (e : Option GoLite.Err),
+    GoLite.foldE (idStep P) ids acc = .error (a, e) → e.isSome = true := by
+  induction ids with
+  | nil => intro acc a e h; simp [GoLite.foldE] at h
+  | cons s r ih =>
+    intro acc a e h
+    simp only [GoLite.foldE] at h
+    cases hs : idStep P acc s with
+    | ok acc' => rw [hs] at h; exact ih _ _ _ h
+    | error e' =>
+      rw [hs] at h
+      simp only [Except.error.injEq, Prod.mk.injEq] at h
+      rw [← h.2]; exact idStep_error_isSome P hs
+
+theorem foldE_collect (hP : ∀ s, ofP (P s) = parseDN s.toList (R s)) (ids : List String) :
+    ∀ acc : List (GoLite.Map String String),
+    (match GoLite.foldE (idStep P) ids acc with
+      | .ok acc' => some (acc'.map toMap)
+      | .error _ => none) = collect (ids.map (mkId R)) (acc.map toMap) := by
+  induction ids with
+  | nil => intro acc; simp [GoLite.foldE, collect]
+  | cons s r ih =>
+    intro acc
+    have hx : x509Subject = "x509.subject".toList := rfl
+    simp only [GoLite.foldE, List.map_cons, collect, mkId, cut_src, idStep]
+    by_cases hf : (GoLite.cut s (Char.ofNat 58)).2.2 = true
+    · simp only [hf, if_true, Bool.true_eq_false, if_false, hx, String.toList_inj, isEmpty_toList]
+      by_cases hp : (GoLite.cut s (Char.ofNat 58)).1 = "x509.subject"
+      · have hp' : ((GoLite.cut s (Char.ofNat 58)).1 == "x509.subject") = true := by simpa using hp
+        simp only [hp, hp', if_true]
+        by_cases he : ((GoLite.cut s (Char.ofNat 58)).2.1 == "") = true
+        · simp [he]
+        · simp only [he, Bool.false_eq_true, if_false]
+          rw [← hP]
+          unfold ofP
+          by_cases hs : (P (GoLite.cut s (Char.ofNat 58)).2.1).2.isSome = true
+          · simp [hs]
+          · simp only [hs, Bool.false_eq_true, if_false]
+            have := ih (acc ++ [(P (GoLite.cut s (Char.ofNat 58)).2.1).1])
+            simpa using this
+      · have hp' : ((GoLite.cut s (Char.ofNat 58)).1 == "x509.subject") = false := by simpa using hp
+        simp only [hp, hp', Bool.false_eq_true, if_false]
+        exact ih acc
+    · have hf' : (GoLite.cut s (Char.ofNat 58)).2.2 = false := by simpa using hf
+      simp [hf']
+
+/-- one round of the final matching loop -/
+def matchStep (l : GoLite.Map String String) (_ : Unit) (m : GoLite.Map String String) : Except Unit Unit :=
+  if pkix.IsSubsetDN m l = true then .error () else .ok ()
+
+theorem foldE_match (l : GoLite.Map String String) (ms : List (GoLite.Map String String)) :
+    (match GoLite.foldE (matchStep l) ms () with
+      | .ok _ => false
+      | .error _ => true) = (ms.map toMap).any (fun m => isSubset m (toMap l)) := by
+  induction ms with
+  | nil => simp [GoLite.foldE]
+  | cons m r ih =>
+    simp only [GoLite.foldE, matchStep, List.map_cons, List.any_cons, source_IsSubsetDN_refines_model]
+    cases isSubset (toMap m) (toMap l) with
+    | true => simp
+    | false => simpa [matchStep, source_IsSubsetDN_refines_model] using ih
+
+theorem wildcard_src (ids : List String) :
+    GoLite.contains ids trustpolicyInternal.Wildcard = (ids.map (mkId R)).any (fun id => id.raw == wildcard) := by
+  have hw : wildcard = trustpolicyInternal.Wildcard.toList := rfl
+  induction ids with
+  | nil => rfl
+  | cons s r ih =>
+    simp only [GoLite.contains, List.contains_cons, List.map_cons, List.any_cons, mkId, hw, beq_toList] at ih ⊢
+    rw [← ih]
+    congr 1
+    exact Bool.beq_comm
+
+/-- TIE (translated source): `verifier.verifyX509TrustedIdentities` returns no error exactly when
+the model's `verifyIdentities` says so - for every identity list, every non-empty chain and every
+`ParseDistinguishedName` oracle `P` that behaves like the model's `parseDN` on what go-ldap
+answered (`R`). -/
+theorem source_verifyX509TrustedIdentities_refines_model
+    (hP : ∀ s, ofP (P s) = parseDN s.toList (R s))
+    (policyName : String) (ids : List String) (certs : List x509.Certificate) (hc : certs ≠ []) :
+    (verifier.verifyX509TrustedIdentities P policyName ids certs).isNone =
+      verifyIdentities (ids.map (mkId R)) (certs.map (mkDN R)) := by
+  unfold verifier.verifyX509TrustedIdentities
+  simp only [Id.run]
+  unfold verifyIdentities
+  rw [wildcard_src R]
+  by_cases hw : (ids.map (mkId R)).any (fun id => id.raw == wildcard) = true
+  · simp [hw, GoLite.idPure]
+  · simp only [hw, Bool.false_eq_true, if_false]
+    have hd : (default : List (GoLite.Map String String)) = [] := rfl
+    rw [hd]
+    rw [GoLite.forIn_eq_foldE' _ (idStep P) (fun acc => (none, acc)) (fun acc e => (some e, acc)) ?h _ _ [] rfl]
+    case h =>
+      intro s acc
+      unfold idStep
+      have hx : trustpolicyInternal.X509Subject = "x509.subject" := rfl
+      (try (repeat' split)) <;> first | rfl | simp_all [GoLite.errorf, eq_comm (a := "x509.subject"), eq_comm (a := "")]
+    simp only [pure_bind]
+    have hcol := foldE_collect P R hP ids []
+    simp only [List.map_nil] at hcol
+    rw [← hcol]
+    cases hf : GoLite.foldE (idStep P) ids [] with
+    | error p =>
+      obtain ⟨a, e⟩ := p
+      have := foldE_error_isSome P ids [] a e hf
+      cases e with
+      | none => simp at this
+      | some e' => simp [GoLite.idPure]
+    | ok acc =>
+      simp only
+      cases acc with
+      | nil => simp [GoLite.idPure, GoLite.len]
+      | cons m0 ms =>
+        have hlen : (GoLite.len (m0 :: ms) == 0) = false := by simp [GoLite.len]; omega
+        have hlen1 : decide (GoLite.len (m0 :: ms) < 1) = false := by simp [GoLite.len]; try omega
+        have hlen2 : decide (GoLite.len (m0 :: ms) ≤ 0) = false := by simp [GoLite.len]; try omega
+        have hlen3 : ((0 : Int) == GoLite.len (m0 :: ms)) = false := by simp [GoLite.len]; try omega
+        simp only [hlen, hlen1, hlen2, hlen3, Bool.false_eq_true, if_false, List.map_cons]
+        obtain ⟨c0, cs, rfl⟩ : ∃ c0 cs, certs = c0 :: cs := by
+          cases certs with
+          | nil => exact absurd rfl hc
+          | cons c0 cs => exact ⟨c0, cs, rfl⟩
+        have hidx : GoLite.idx (c0 :: cs) 0 = c0 := rfl
+        have hleaf : (List.map (mkDN R) (c0 :: cs))[leafIndex]? = some (mkDN R c0) := rfl
+        rw [hidx, hleaf]
+        simp only [mkDN, pkix.Name.String]
+        rw [← hP]
+        unfold ofP
+        by_cases hs : (P c0.Subject.text).2.isSome = true
+        · simp [hs, GoLite.idPure]
+        · simp only [hs, Bool.false_eq_true, if_false]
+          rw [GoLite.forIn_eq_foldE' _ (matchStep (P c0.Subject.text).1) (fun _ => (none, ())) (fun _ _ => (some none, ())) ?hm _ _ () rfl]
+          case hm =>
+            intro m t
+            unfold matchStep
+            (try (repeat' split)) <;> first | rfl | simp_all
+          have hmt := foldE_match (P c0.Subject.text).1 (m0 :: ms)
+          simp only [List.map_cons] at hmt
+          rw [← hmt]
+          simp only [pure_bind]
+          cases GoLite.foldE (matchStep (P c0.Subject.text).1) (m0 :: ms) () with
+          | ok u => simp [GoLite.idPure]
+          | error p => simp [GoLite.idPure]
+
+
+/-! #### the two ties composed: only go-ldap's ParseDN is left as an oracle -/
+
+/-- the translated `ParseDistinguishedName` as the verifier's oracle (a nil map reads as empty) -/
+def pdnOf (L : String → Option ldapv3.DN × Option GoLite.Err) (s : String) :
+    GoLite.Map String String × Option GoLite.Err :=
+  ((pkix.ParseDistinguishedName L s).1.getD [], (pkix.ParseDistinguishedName L s).2)
+
+theorem pdnOf_spec (L : String → Option ldapv3.DN × Option GoLite.Err) (s : String) :
+    ofP (pdnOf L s) = parseDN s.toList (rdnsOf (L s)) := by
+  have h := source_ParseDistinguishedName_refines_model L s
+  unfold shapeP at h
+  unfold ofP pdnOf
+  cases hm : parseDN s.toList (rdnsOf (L s)) with
+  | none =>
+    rw [hm] at h
+    simp only [ofModelP, Prod.mk.injEq] at h
+    simp [h.2]
+  | some m =>
+    rw [hm] at h
+    simp only [ofModelP, Prod.mk.injEq] at h
+    cases h1 : (pkix.ParseDistinguishedName L s).1 with
+    | none => rw [h1] at h; simp at h
+    | some x =>
+      rw [h1] at h
+      simp only [Option.map_some, Option.some.injEq] at h
+      simp [h.2, h.1]
+
+/-- TIE, end to end: the translated `verifyX509TrustedIdentities`, calling the translated
+`ParseDistinguishedName` and `IsSubsetDN`, accepts exactly when the model's `verifyIdentities`
+does, whatever go-ldap's `ParseDN` (`L`) answers. -/
+theorem source_identity_check_refines_model (L : String → Option ldapv3.DN × Option GoLite.Err)
+    (policyName : String) (ids : List String) (certs : List x509.Certificate) (hc : certs ≠ []) :
+    (verifier.verifyX509TrustedIdentities (pdnOf L) policyName ids certs).isNone =
+      verifyIdentities (ids.map (mkId (fun s => rdnsOf (L s)))) (certs.map (mkDN (fun s => rdnsOf (L s)))) :=
+  source_verifyX509TrustedIdentities_refines_model (pdnOf L) (fun s => rdnsOf (L s)) (pdnOf_spec L) policyName ids certs hc
+
+/-- non-vacuity: the translated functions run -/
+example : pkix.IsSubsetDN [("C", "US"), ("O", "x")] [("O", "x"), ("CN", "y"), ("C", "US")] = true := by decide
+example : pkix.IsSubsetDN [("C", "US"), ("L", "")] [("O", "x"), ("C", "US")] = false := by decide
+
+/-- a stand-in for go-ldap on three fixed strings -/
+def exL (s : String) : Option ldapv3.DN × Option GoLite.Err :=
+  let dn (l : List (String × String)) : Option ldapv3.DN := some { RDNs := l.map (fun p => { Attributes := [{ «Type» := p.1, Value := p.2 }] }) }
+  if s == "C=US,S=WA,O=x" then (dn [("C", "US"), ("S", "WA"), ("O", "x")], none)
+  else if s == "CN=l,O=x,ST=WA,C=US" then (dn [("CN", "l"), ("O", "x"), ("ST", "WA"), ("C", "US")], none)
+  else if s == "CN=r,O=x,ST=WA,C=US" then (dn [("CN", "r"), ("O", "x"), ("ST", "WA"), ("C", "US")], none)
+  else (none, some (GoLite.errorf ""))
+
+example : (pkix.ParseDistinguishedName exL "C=US,S=WA,O=x").1 = some [("C", "US"), ("ST", "WA"), ("O", "x")] := by decide
+example : (verifier.verifyX509TrustedIdentities (pdnOf exL) "p" ["x509.subject:C=US,S=WA,O=x"]
+    [{ Subject := { text := "CN=l,O=x,ST=WA,C=US" } }, { Subject := { text := "CN=r,O=x,ST=WA,C=US" } }]).isNone = true := by decide
+example : (verifier.verifyX509TrustedIdentities (pdnOf exL) "p" ["x509.subject:CN=r,O=x,ST=WA,C=US"]
+    [{ Subject := { text := "CN=l,O=x,ST=WA,C=US" } }, { Subject := { text := "CN=r,O=x,ST=WA,C=US" } }]).isNone = false := by decide
+example : (verifier.verifyX509TrustedIdentities (pdnOf exL) "p" ["*"] [{ Subject := { text := "whatever" } }]).isNone = true := by decide
+
+end Tie
 
 end NotationModel.C04
